@@ -140,7 +140,7 @@ fn witness_project() -> Option<String> {
 pub fn def() -> PropertyDef {
     PropertyDef {
         id: "C23",
-        rule: "every generator of the framework: tree programs (14 atoms, 4 fresh variables, depth 3, all compound kinds), search programs (16 goals, depth 4) and FD programs (5 variables, 8 constraints, domains -6..=9) at enlarged bounds, each built and run both as interleaving search and wrapped in dfs{}; plus the CLP(Z), project, for, committed-choice, matcha/matchu, compound, infinite-prefix and prefix/branches generators through their own evaluations. Oracle: no panic other than the step-budget payload (overflow checks and debug assertions are on). Non-trivial = >=3 goals and >=50 engine steps (own families) or the source property's rule (reused families); distinct = hash of the printed program. Family `scale`: programs with one large dimension (terms of up to 400/2000 levels and chains of var-var bindings, hundreds of stored disequalities, disjunctions of hundreds of clauses, chains of choice points, recursion hundreds of levels deep, finite domains of hundreds of values). Panics raised by a second state reaching `project` are the listed finding C23-project-panic",
+        rule: "every generator of the framework: tree programs (14 atoms, 4 fresh variables, depth 3, all compound kinds), search programs (16 goals, depth 4) and FD programs (5 variables, 8 constraints, domains -6..=9) at enlarged bounds, each built and run both as interleaving search and wrapped in dfs{}; plus the CLP(Z), project, for, committed-choice, matcha/matchu, compound, infinite-prefix and prefix/branches generators through their own evaluations. Oracle: no panic other than the step-budget payload (overflow checks and debug assertions are on). Non-trivial = >=3 goals and >=50 engine steps (own families) or the source property's rule (reused families); distinct = hash of the printed program. Family `scale`: programs with one large dimension (terms of up to 400/1000 levels and chains of var-var bindings, hundreds of stored disequalities, disjunctions of hundreds of clauses, chains of choice points, recursion hundreds of levels deep, finite domains of hundreds of values). Panics raised by a second state reaching `project` are the listed finding C23-project-panic",
         assumptions: vec!["well-formed = operands of the kinds the relations document, every FD operand given a domain before labeling, small integers (no isize overflow)", "compiled surface programs (pattern matching through the macros) are run by the C13-C15 pipeline, which reports panics itself"],
         families: vec![
             Family { name: "tree-large", max_len: 300, quick: 60_000, thorough: 1_500_000, run: fam_tree },
@@ -154,7 +154,7 @@ pub fn def() -> PropertyDef {
             Family { name: "compound", max_len: 200, quick: 30_000, thorough: 500_000, run: fam_compound },
             Family { name: "infinite-prefix", max_len: 160, quick: 4_000, thorough: 60_000, run: fam_infinite },
             Family { name: "prefix-branches", max_len: 120, quick: 30_000, thorough: 500_000, run: fam_branches },
-            Family { name: "scale", max_len: 96, quick: 12_000, thorough: 200_000, run: fam_scale },
+            Family { name: "scale", max_len: 96, quick: 12_000, thorough: 120_000, run: fam_scale },
             Family { name: "fd-wide", max_len: 96, quick: 80_000, thorough: 1_500_000, run: fam_fd_wide },
         ],
         fixed: vec![],
